@@ -23,6 +23,9 @@ COMMUTATIVE = {"max", "min", "hypot"}
 TRANSPARENT = {"clone", "to_owned", "into", "copied", "cloned", "borrow", "as_ref", "deref", "unwrap_or_default"}
 
 
+_MISSING = object()
+
+
 def _scalar_ty(ty):
     return (ty or "").replace("&", "").replace("mut ", "").strip() in ("f32", "f64")
 
@@ -42,6 +45,10 @@ def canon(v):
         return "{" + ", ".join(f"{k}: {canon(x)}" for k, x in sorted(v[1].items())) + "}"
     if v[0] == "obj":
         return v[1]
+    if v[0] == "str":
+        return repr(v[1])
+    if v[0] == "bool":
+        return str(v[1]).lower()
     if v[0] == "some":
         return "Some(" + canon(v[1]) + ")"
     if v[0] == "none":
@@ -62,6 +69,20 @@ def atom(name, args):
     return {f"{name}({'; '.join(strs)})": Fraction(1)}
 
 
+def mul(a, b):
+    """product of two non-constant forms: scalar content factored out, operands ordered"""
+    f = Fraction(1)
+    ops = []
+    for x in (a, b):
+        # primitive part: the coefficient of the first symbol (in name order) is factored out
+        keys = sorted((k for k in x if k != ONE), key=str)
+        c = x[keys[0]] if keys else Fraction(1)
+        f *= c
+        ops.append({k: v / c for k, v in x.items()})
+    at = atom("mul", sorted(ops, key=canon))
+    return None if at is None else L._scale(at, f)
+
+
 def equal(a, b):
     if a is None or b is None:
         return False
@@ -75,7 +96,7 @@ def equal(a, b):
         return len(a[1]) == len(b[1]) and all(equal(x, y) for x, y in zip(a[1], b[1]))
     if a[0] in ("struct", "match"):
         return set(a[1]) == set(b[1]) and all(equal(a[1][k], b[1][k]) for k in a[1])
-    if a[0] == "obj":
+    if a[0] in ("obj", "str", "bool"):
         return a[1] == b[1]
     if a[0] == "some":
         return equal(a[1], b[1])
@@ -87,9 +108,15 @@ def equal(a, b):
 
 
 class Evaluator:
-    def __init__(self, prog, inline_prefixes=("svgdx::",), max_depth=4, opaque=()):
+    def __init__(self, prog, inline_prefixes=("svgdx::",), max_depth=4, opaque=(), presets=None, type_alias=None, watch=(), name_case=None, transparent=()):
         self.prog = prog
         self.opaque = set(opaque)
+        self.presets = presets or {}  # type -> value, for enum-typed selector locals (case specialisation)
+        self.type_alias = type_alias or {}  # type -> symbolic object name for locals of that type whose value is unknown
+        self.watch = set(watch)  # method / function names whose evaluated argument lists are recorded
+        self.calls = []
+        self.name_case = name_case  # element name assumed for matches over `self.name.as_str()`
+        self.transparent = set(transparent)  # local functions that return their (single) argument unchanged for our purposes (fstr)
         self.inline_prefixes = inline_prefixes
         self.max_depth = max_depth
         self.by_path = {}
@@ -146,6 +173,19 @@ class Evaluator:
             for q in pat.get("pats", []):
                 self._bind(q, None, env, counter)
 
+    def _bind_some(self, pat, val, env):
+        """bind an `if let` pattern: Some(p) / Ok(p) unwrap a known payload, tuples distribute"""
+        p = pat.get("p")
+        if p in ("tstruct",) and (pat.get("res") or {}).get("path", "").split("::")[-1] in ("Some", "Ok") and len(pat.get("pats", [])) == 1:
+            inner = val[1] if (val is not None and not is_form(val) and val[0] == "some") else (val if (val is not None and (is_form(val) or val[0] != "none")) and False else None)
+            self._bind_some(pat["pats"][0], inner, env)
+        elif p == "tuple":
+            for i, q in enumerate(pat["pats"]):
+                sub = val[1][i] if (val is not None and not is_form(val) and val[0] == "tup" and i < len(val[1])) else None
+                self._bind_some(q, sub, env)
+        else:
+            self._bind(pat, val, env)
+
     def _field(self, base, name):
         if base is None:
             return None
@@ -173,18 +213,32 @@ class Evaluator:
             return None
         k = n.get("k")
         if k == "Lit":
+            lit = n.get("lit", {})
+            if "str" in lit:
+                return ("str", lit["str"])
+            if "bool" in lit:
+                return ("bool", bool(lit["bool"]))
             return L.lin(n)
         if k == "Path":
             res = n.get("res") or {}
             l = res.get("local")
             if l is not None:
-                if l in env:
-                    v = env[l]
-                    if v is not None and not is_form(v) and v[0] == "obj" and _scalar_ty(n.get("ty")):
-                        return {v[1]: Fraction(1)}
-                    return v
-                return {l: Fraction(1)} if _scalar_ty(n.get("ty")) else ("obj", l)
+                ty = (n.get("ty") or "").replace("&", "").replace("mut ", "").strip()
+                if ty in self.presets:
+                    return self.presets[ty]
+                v = env.get(l)
+                if v is None:
+                    if _scalar_ty(ty):
+                        return {l: Fraction(1)}
+                    return ("obj", self.type_alias.get(ty, l))
+                if not is_form(v) and v[0] == "obj" and _scalar_ty(ty):
+                    return {v[1]: Fraction(1)}
+                if not is_form(v) and _scalar_ty(ty):
+                    return {l: Fraction(1)}  # a number the domain cannot express: an opaque symbol named after the local
+                return v
             path = res.get("path", "")
+            if path.split("::")[-1] in ("SQRT_2", "FRAC_1_SQRT_2", "PI") and "consts" in path:
+                return {path.split("::")[-1]: Fraction(1)}
             if path.split("::")[-1] == "None" and "Ctor" in str(res.get("dk", "")):
                 return ("none",)
             if "Ctor" in str(res.get("dk", "")) or "Variant" in str(res.get("dk", "")):
@@ -199,6 +253,10 @@ class Evaluator:
             if n["op"] == "Neg":
                 a = self.eval(n["x"], env, st)
                 return L._scale(a, Fraction(-1)) if is_form(a) else None
+            if n["op"] == "Not":
+                a = self.eval(n["x"], env, st)
+                if a is not None and not is_form(a) and a[0] == "bool":
+                    return ("bool", not a[1])
             return None
         if k == "AddrOf":
             return self.eval(n.get("x") or n.get("e"), env, st)
@@ -219,25 +277,50 @@ class Evaluator:
                 out[f["name"]] = self.eval(f["v"], env, st)
             return ("struct", out)
         if k == "Block":
-            env = dict(env)
-            for s in n.get("stmts", []):
-                r = self._stmt(s, env, st)
-                if r is not None:
-                    return r[1]
-            if n.get("expr"):
-                return self.eval(n["expr"], env, st)
-            return ("tup", [])
+            # lets are scoped to the block, assignments to outer locals persist
+            saved = {}
+            try:
+                for s in n.get("stmts", []):
+                    if s.get("k") == "Let" and isinstance(s.get("pat"), dict):
+                        for q in hirq.walk(s["pat"]):
+                            if isinstance(q, dict) and q.get("p") == "bind" and q["name"] not in saved:
+                                saved[q["name"]] = env.get(q["name"], _MISSING)
+                    r = self._stmt(s, env, st)
+                    if r is not None:
+                        return r[1]
+                if n.get("expr"):
+                    return self.eval(n["expr"], env, st)
+                return ("tup", [])
+            finally:
+                for name, old in saved.items():
+                    if old is _MISSING:
+                        env.pop(name, None)
+                    else:
+                        env[name] = old
         if k == "Ret":
             return self.eval(n.get("x") or n.get("e"), env, st) if (n.get("x") or n.get("e")) else ("tup", [])
         if k == "If":
-            c = self.eval(n["cond"], env, st) if isinstance(n.get("cond"), dict) else None
-            t = self.eval(n["then"], env, st)
-            e = self.eval(n["else"], env, st) if n.get("else") else ("tup", [])
+            env_t = dict(env)
+            for lc in hirq.exprs(n["cond"], "LetCond") if isinstance(n.get("cond"), dict) else []:
+                iv = self.eval(lc["init"], env_t, st) if isinstance(lc.get("init"), dict) else None
+                self._bind_some(lc["pat"], iv, env_t)
+            c = self.eval(n["cond"], env, st) if isinstance(n.get("cond"), dict) and n["cond"].get("k") != "LetCond" else None
+            if c is not None and not is_form(c) and c[0] == "bool":
+                if c[1]:
+                    return self.eval(n["then"], env, st)
+                return self.eval(n["else"], env, st) if n.get("else") else ("tup", [])
+            env_e = dict(env)
+            t = self.eval(n["then"], env_t, st)
+            e = self.eval(n["else"], env_e, st) if n.get("else") else ("tup", [])
+            for name in list(env):
+                vt, ve = env_t.get(name), env_e.get(name)
+                if vt is ve or equal(vt, ve):
+                    env[name] = vt
+                else:
+                    env[name] = self._join(c, vt, ve)
             if equal(t, e):
                 return t
-            if is_form(c) and is_form(t) and is_form(e):
-                return atom("ite", [c, t, e])
-            return ("if", t, e)
+            return self._join(c, t, e)
         if k == "Match":
             return self._match(n, env, st)
         if k == "MethodCall":
@@ -264,7 +347,7 @@ class Evaluator:
                 return L._scale(a, cb)
             if ca is not None:
                 return L._scale(b, ca)
-            return atom("mul", sorted([a, b], key=canon))
+            return mul(a, b)
         if op == "Div":
             cb = L._const(b)
             if cb is not None and cb != 0:
@@ -281,6 +364,13 @@ class Evaluator:
                 return atom(op.lower(), sorted([a, b], key=canon))
             return atom(op.lower(), [a, b])
         return None
+
+    def _join(self, c, t, e):
+        if is_form(c) and is_form(t) and is_form(e):
+            return atom("ite", [c, t, e])
+        if t is None and e is None:
+            return None
+        return ("if", t, e)
 
     def _stmt(self, s, env, st):
         k = s.get("k")
@@ -324,7 +414,29 @@ class Evaluator:
 
     def _match(self, n, env, st):
         arms = {}
+        if str(n.get("src", "")).startswith("TryDesugar") and n["scrut"].get("k") == "Call" and n["scrut"]["args"]:
+            v = self.eval(n["scrut"]["args"][0], env, st)
+            if v is not None and not is_form(v) and v[0] == "some":
+                return v[1]
+            return v
+        if self.name_case is not None and _is_name_scrut(n["scrut"]):
+            chosen = None
+            for arm in n["arms"]:
+                lits = hirq.pat_strs(arm["pat"])
+                if self.name_case in lits and not arm.get("guard"):
+                    chosen = arm
+                    break
+                if chosen is None and hirq.WILD in lits and not arm.get("guard"):
+                    chosen = arm
+            if chosen is not None:
+                return self.eval(chosen["body"], env, st)
         sc = self.eval(n["scrut"], env, st)
+        if sc is not None and not is_form(sc) and sc[0] == "obj":
+            # a known variant selects its arm (case specialisation)
+            for arm in n["arms"]:
+                for alt in _alts(arm["pat"]):
+                    if alt.get("p") in ("path", "tstruct", "struct") and (alt.get("res") or {}).get("path", "").split("::")[-1] == sc[1] and not arm.get("guard"):
+                        return self.eval(arm["body"], env, st)
         for arm in n["arms"]:
             for alt in _alts(arm["pat"]):
                 e2 = dict(env)
@@ -363,8 +475,12 @@ class Evaluator:
         recv = self.eval(n["recv"], env, st)
         args = [self.eval(a, env, st) for a in n["args"]]
         rty = (n.get("recv_ty") or "").lstrip("&").replace("mut ", "")
+        if name in self.watch:
+            self.calls.append(dict(name=name, recv=recv, args=args, line=n.get("line")))
         if name in TRANSPARENT:
             return recv
+        if name in ("unwrap_or", "unwrap_or_else", "unwrap", "expect", "unwrap_or_default") and recv is not None and not is_form(recv) and recv[0] == "some":
+            return recv[1]
         if rty in ("f32", "f64") and name in ATOM_METHODS:
             if is_form(recv) and all(is_form(a) for a in args):
                 return atom(name, [recv] + args)
@@ -393,6 +509,10 @@ class Evaluator:
         path = res.get("path", "")
         last = path.split("::")[-1]
         args = [self.eval(a, env, st) for a in n["args"]]
+        if last in self.watch:
+            self.calls.append(dict(name=last, recv=None, args=args, line=n.get("line")))
+        if last in self.transparent and len(args) == 1:
+            return args[0]
         if "Ctor" in str(res.get("dk", "")):
             if last == "Some" and len(args) == 1:
                 return ("some", args[0])
@@ -415,6 +535,15 @@ class Evaluator:
         if all(a is not None for a in args) and last:
             return atom(last, args)
         return None
+
+
+def _is_name_scrut(n):
+    """`self.name.as_str()` / `self.name.as_ref()` / `&*self.name`"""
+    while n.get("k") in ("MethodCall", "AddrOf", "Unary"):
+        n = n.get("recv") if n.get("k") == "MethodCall" else n.get("x")
+        if n is None:
+            return False
+    return n.get("k") == "Field" and n.get("name") == "name" and n["x"].get("k") == "Path" and (n["x"].get("res") or {}).get("local") == "self"
 
 
 def _alts(pat):
@@ -485,7 +614,7 @@ class RefParser:
                 elif ca is not None:
                     v = L._scale(r, ca)
                 else:
-                    v = atom("mul", sorted([v, r], key=canon))
+                    v = mul(v, r)
             else:
                 cb = L._const(r)
                 v = L._scale(v, 1 / cb) if cb not in (None, 0) else atom("div", [v, r])
@@ -533,6 +662,13 @@ class RefParser:
             if self.peek() != ")":
                 raise ValueError("expected ) in " + self.s)
             self.i += 1
+            if name == "mul" and len(args) == 2 and all(is_form(a) for a in args):
+                ca, cb = L._const(args[0]), L._const(args[1])
+                if cb is not None:
+                    return L._scale(args[0], cb)
+                if ca is not None:
+                    return L._scale(args[1], ca)
+                return mul(args[0], args[1])
             return atom(name, args)
         return {name: Fraction(1)}
 
